@@ -173,6 +173,28 @@ def _replay_semtok_document(text, expect):
         return bad, {'text': text, 'decoded': got[:12], 'expected': expect}
     return rp
 
+def _advertised_legend(P):
+    """the legend a client decodes token_type indices with: the SemanticTokenType constants, in order, of the array that the function building
+    SemanticTokensLegend converts into `token_types` (read from the MIR text of the current tree)"""
+    src = None
+    for k, it in P.items.items():
+        if k[0] != 'ironplcc' or it.kind != 'fn': continue
+        text = '\n'.join('\n'.join(v) for v in it.blocks.values())
+        if 'SemanticTokensLegend' not in text: continue
+        m = re.findall(r'as std::convert::Into<std::vec::Vec<lsp_types::SemanticTokenType>>>::into\(const ([\w:]+)\)', text)
+        others = re.findall(r'lsp_types::SemanticTokenType::\w+', text)
+        if len(m) != 1 or others: return None
+        src = m[0]
+    if src is None: return None
+    item = [it for k, it in P.items.items() if k[0] == 'ironplcc' and k[1] == src]
+    if len(item) != 1: return None
+    text = '\n'.join('\n'.join(v) for v in item[0].blocks.values())
+    names = re.findall(r'= const lsp_types::SemanticTokenType::(\w+);', text)
+    arr = re.search(r'_0 = \[(.*?)\];', text)
+    if not names or not arr or len(arr.group(1).split(',')) != len(names): return None
+    # the array lists the locals in order _1.._n, each assigned one constant in that order
+    return [n.lower() for n in names]
+
 # ---------------------------------------------------------------------------------------------- K2 legend table
 @kernel('K2 lsp.semantic_token_legend')
 def k2(ctx, kr):
@@ -188,7 +210,8 @@ def k2(ctx, kr):
         st['t'] = t
         st['tokens'] = [_mk_token(P, t, 0, 0, [ord('x')], 0)]; st['diags'] = []
         return _call(M, P, key)
-    LEG = ['variable', 'keyword', 'modifier', 'comment', 'string', 'operator']
+    LEG = _advertised_legend(P)
+    if LEG is None: kr.inconc('the legend advertised in the server capabilities could not be read from the MIR (expected: SemanticTokensLegend.token_types = TOKEN_TYPE_LEGEND.into())'); return
     def on_path(M, pr):
         kr.paths += 1
         if pr.inconclusive: kr.inconc(pr.inconclusive); return
